@@ -563,23 +563,33 @@ func c09Do(srv *httpserver.Server, rq c09Req) *httptest.ResponseRecorder {
 // c09Start loads the block and returns the compiled handler chain (directive names, outside in)
 // and the answers to the battery.
 func c09Start(lines []c09Line, logName string) (chain string, answers []string, err error) {
+	chain, answers, _, err = c09StartCodes(lines, logName)
+	return
+}
+
+func c09StartCodes(lines []c09Line, logName string) (chain string, answers []string, codes map[int]int, err error) {
+	codes = map[int]int{}
 	srv, stop, err := c09Load(lines, logName)
 	if err != nil {
-		return "", nil, err
+		return "", nil, nil, err
 	}
 	defer stop()
 	sites := httpserver.VerifSites(srv)
 	if len(sites) != 1 {
-		return "", nil, fmt.Errorf("%d sites", len(sites))
+		return "", nil, nil, fmt.Errorf("%d sites", len(sites))
 	}
+	for _, rq := range c09Battery() {
+		rec := c09Do(srv, rq)
+		codes[rec.Code]++
+		answers = append(answers, c09Digest(rec))
+	}
+	// Only now look at the handler types: some middleware constructors (errors) store `next` in a
+	// shared handler, so calling them again would cut the chain the battery runs through.
 	var names []string
 	for _, mw := range sites[0].Middleware() {
 		names = append(names, c09HandlerName(mw(httpserver.EmptyNext)))
 	}
-	for _, rq := range c09Battery() {
-		answers = append(answers, c09Digest(c09Do(srv, rq)))
-	}
-	return strings.Join(names, ","), answers, nil
+	return strings.Join(names, ","), answers, codes, nil
 }
 
 func c09Digest(rec *httptest.ResponseRecorder) string {
@@ -650,7 +660,7 @@ func c09PermEval(f []string) (string, []string) {
 		re[k] = lines[i]
 		moved = moved || k != i
 	}
-	chainA, ansA, errA := c09Start(lines, "access-a.log")
+	chainA, ansA, codes, errA := c09StartCodes(lines, "access-a.log")
 	chainB, ansB, errB := c09Start(re, "access-b.log")
 	if errA != nil || errB != nil {
 		return fmt.Sprintf("start-error:%v / %v", errA, errB), nil
@@ -671,6 +681,15 @@ func c09PermEval(f []string) (string, []string) {
 	}
 	if strings.Count(chainA, ",") >= 2 {
 		tags = append(tags, "chain>=3")
+	}
+	// the battery must actually exercise the site: several different statuses, mostly not 404/500
+	if len(codes) >= 3 && codes[200] >= 5 {
+		tags = append(tags, "battery-varied")
+	} else {
+		tags = append(tags, "trivial-battery-flat")
+	}
+	if os.Getenv("VERIF_C09_DUMP") != "" {
+		fmt.Fprintf(os.Stderr, "codes=%v\n", codes)
 	}
 	// a reordering that puts a directive later in the list in front of one earlier in it
 	D := casket.ValidDirectives("http")
